@@ -85,6 +85,17 @@ def _cfgs(tier, rng):
             c["level"] = int(rng.integers(0, 2))
             c["evaluator"] = str(rng.choice(["rbf", "kernel"]))
             cfgs.append(c)
+    # an exactly empty spin channel (one-electron and fully polarised systems: D_beta = 0 from the first SCF cycle on); only
+    # directions in the populated channel are differentiated - added after a seeded low-density screen in the normaliser
+    # back-propagation that zeroed BOTH channels where one of them is empty
+    empties = [dict(family="sl-npa", spin="uks", mode="SEP", mol="H"), dict(family="sl-nst", spin="uks", mode="NPOL", mol="Li"),
+               dict(family="vj-mgga", spin="uks", mode="SEP", mol="H", plan_type="gaussian", interp="onsite_direct"),
+               dict(family="sdmx", spin="uks", mode="SEP", mol="NH2")]
+    for rep in range(reps):
+        for m in empties:
+            c = dict(m, empty_beta=True, basis=str(rng.choice(["6-31g", "def2-svp"])), level=1, evaluator="rbf", mix=str(rng.choice(["pure", "xmix"])),
+                     model="xc1")
+            cfgs.append(c)
     # other KINDS of system for the same molecules (every seeding round on a new axis of variation found gaps, so the axes
     # a user can reach by changing only the molecule are covered up front): Cartesian d functions, an f / g shell, Bohr input
     kinds = [dict(family="sl-npa", spin="rks", system="cart"), dict(family="vj-mgga", spin="uks", system="cart", plan_type="gaussian", interp="onsite_direct"),
@@ -124,6 +135,9 @@ def run_case(case, rec):
     mol, model, ks = gen.build_ks(cfg, rng)
     nspin = 1 if cfg["spin"] == "rks" else 2
     dm = gen.psd_dm(mol, rng, nspin)
+    if cfg.get("empty_beta"):
+        dm[1] *= 0.0
+        rec.tag("empty_beta_channel", True)
     has_nldf = model.settings.has_nldf
     tol = 1e-5 if has_nldf else 1e-7
     for k in ("family", "spin", "mol", "basis", "level", "mode", "evaluator", "mix", "plan_type", "interp", "model", "system",
@@ -163,6 +177,8 @@ def run_case(case, rec):
     for name, D in dirs:
         D = D / np.linalg.norm(D)
         for s in range(nspin):
+            if cfg.get("empty_beta") and s == 1:
+                continue   # a direction in the empty channel leaves the admissible (PSD) set
             if nspin == 2:
                 DD = np.zeros_like(dm)
                 DD[s] = D
